@@ -465,6 +465,24 @@ func main() {
 				}
 			}
 		}
+		// values that agree on a NESTED prefix (objects with several keys, nested again, arrays of
+		// objects) and differ only in a LATER member: a comparison that loses its place after
+		// descending into a nested container (shared scratch buffers, pooled key lists) shows here
+		{
+			nested := []any{
+				map[string]any{"x": 1, "y": 2}, map[string]any{"x": 1, "y": 2, "z": map[string]any{"p": 1, "q": 2}}, []any{map[string]any{"x": 1, "y": 2}, map[string]any{"u": 1, "v": 2}},
+				map[string]any{"k": []any{map[string]any{"a": 1, "b": 2}}, "l": map[string]any{"m": 1, "n": 2, "o": 3}}, map[string]any{"a": map[string]any{"a": map[string]any{"a": 1, "b": 2}, "b": 2}, "b": 2},
+			}
+			for _, n := range nested {
+				for _, tail := range [][2]any{{1, 2}, {"a", "b"}, {nil, false}, {[]any{1}, []any{2}}, {map[string]any{"a": 1}, map[string]any{"a": 2}}} {
+					rv = append(rv,
+						map[string]any{"a": common.DeepCopy(n), "b": tail[0]}, map[string]any{"a": common.DeepCopy(n), "b": tail[1]},
+						map[string]any{"a": common.DeepCopy(n), "b": common.DeepCopy(n), "c": tail[0]}, map[string]any{"a": common.DeepCopy(n), "b": common.DeepCopy(n), "c": tail[1]},
+						[]any{common.DeepCopy(n), tail[0]}, []any{common.DeepCopy(n), tail[1]},
+						map[string]any{"o": map[string]any{"a": common.DeepCopy(n), "b": tail[0]}, "p": 0}, map[string]any{"o": map[string]any{"a": common.DeepCopy(n), "b": tail[1]}, "p": 0})
+				}
+			}
+		}
 		lawMatrix(ctx, laws, rv, "random")
 		// the order as the property words it, written from scratch with math/big
 		doc := ctx.NewOracle("documented-order", "gojq.Compare against a comparator written from the property's wording only (type rank; numbers by exact value with math/big; strings by code point = bytewise on valid UTF-8, bytewise otherwise; arrays lexicographically then by length; objects by sorted key list, then values in key order) on all ordered pairs of the tame sub-universe with carriers and of the random deep tame values; distinct = distinct (type pair, result)")
@@ -590,6 +608,38 @@ func main() {
 			}
 			if psTame {
 				check(name, name+"(.[0])", ps, nil, res, "ok "+common.Canon(refBy(name, ps, ks)))
+			}
+		}
+		if i%6 == 0 && psTame {
+			// key filters with a VARYING number of outputs per element: the key is the array of all
+			// outputs (empty, one, two; a single output that is itself an array)
+			ps3 := make([]any, len(ps))
+			ks3 := make([]any, len(ps))
+			for j, p := range ps {
+				k0 := p.([]any)[0]
+				var outs []any
+				switch r.Intn(5) {
+				case 0:
+					outs = []any{}
+				case 1, 2:
+					outs = []any{k0}
+				case 3:
+					outs = []any{k0, common.Pick(r, g.small)}
+				default:
+					outs = []any{[]any{k0}}
+				}
+				ps3[j] = []any{outs, j}
+				ks3[j] = outs
+			}
+			if tame(ps3) {
+				for _, name := range []string{"sort_by", "group_by", "unique_by", "min_by", "max_by"} {
+					if code[name+"-multi"] == nil {
+						code[name+"-multi"] = compile(name+"(.[0][])", "$x")
+					}
+					res, _ := run1(code[name+"-multi"], ps3, nil)
+					emit(name, ps3, ks3, true, res)
+					check(name+"-multi", name+"(.[0][])", ps3, nil, res, "ok "+common.Canon(refBy(name, ps3, ks3)))
+				}
 			}
 		}
 		if i%10 == 0 && psTame {
